@@ -60,6 +60,9 @@ MUTANTS = [
     ("M102", "acl.py", "        ace = \"\\n\".join([f\"{self._indent}{o}\" for o in items])", "        ace = \"\\n\".join([f\"{self._indent or DEF_INDENT}{o}\" for o in items])", "C06"),
     ("M110", "functions.py", "        if len(ports_i) >= port_count:\n            items.append(ports_i)", "        if len(ports_i) > port_count:\n            items.append(ports_i)", "C18"),
     ("M111", "functions.py", "        if ports_i:\n            items.append(ports_i)\n\n    if not port_range:", "        if len(ports_i) > 1:\n            items.append(ports_i)\n\n    if not port_range:", "C18"),
+    ("M120", "ace_group.py", "        if warning:\n            msg = f\"{line=} does not match ACE pattern\"\n            logging.warning(msg)\n        return None", "        return None", "C12"),
+    ("M121", "ace_group.py", "            except ValueError as ex:\n                if warning:", "            except ValueError as ex:\n                if warning and \"protocol\" not in str(ex):", "C12"),
+    ("M122", "acl.py", "            if isinstance(ace_o, (Ace, Remark)):\n                aces.append(ace_o)\n        self.items = aces", "            if isinstance(ace_o, Ace) or (isinstance(ace_o, Remark) and not aces[-1:] == [ace_o]):\n                aces.append(ace_o)\n        self.items = aces", "C12 C06"),
     ("M30", "port.py", "            return [ports[0] - 1] if ports else [65535]", "            return [ports[0]] if ports else [65535]", "C08"),
     ("M31", "port.py", "            return [ports[-1] + 1] if ports else [1]", "            return [ports[1] + 1] if ports else [1]", "C08"),
     ("M32", "port.py", "        ports = sorted(ports)\n        if operator == \"eq\":", "        if operator == \"eq\":", "C08"),
